@@ -138,14 +138,21 @@ func buildUserPacket(kind string, r *rng) *astits.Packet {
 
 // runMux drives the real Muxer through one scenario and records the trace
 func runMux(sc *muxScenario, rec *recorder) {
-	w := &recWriter{fault: sc.Fault}
+	runMuxOn(sc, rec, &recWriter{fault: sc.Fault})
+}
+
+func runMuxOn(sc *muxScenario, rec *recorder, w *recWriter) {
 	period := sc.Period
 	if period <= 0 {
 		period = 40
 	}
 	m := astits.NewMuxer(context.Background(), w, astits.MuxerOptTablesRetransmitPeriod(period))
 	r := newRng(sc.Seed ^ hashStr(sc.SID))
-	rec.ev(M{"ev": "reset", "t": sc.SID, "kind": "mux", "period": period, "fault": sc.Fault != nil})
+	fmode, fat := "none", -1
+	if sc.Fault != nil {
+		fmode, fat = sc.Fault.Mode, sc.Fault.At
+	}
+	rec.ev(M{"ev": "reset", "t": sc.SID, "kind": "mux", "period": period, "fmode": fmode, "fat": fat})
 	var autoPIDs []int
 	resolve := func(p int) int {
 		if p < 0 {
